@@ -2943,7 +2943,11 @@ class Cast(Pointwise):
         if iszero(self.arg):
             return zeros_like(self)
         for axis, parts in self.arg._inflations:
-            return util.sum(_inflate(self._newargs(func), dofmap, self.shape[axis], axis) for dofmap, func in parts.items())
+            # Boolean inflation combines entries that share a dof with a
+            # logical or, hence the cast distributes over the inflation only if
+            # no dof receives more than one entry.
+            if self.arg.dtype != bool or len(parts) == 1 and all(map(_isunique, parts)):
+                return util.sum(_inflate(self._newargs(func), dofmap, self.shape[axis], axis) for dofmap, func in parts.items())
         return super()._simplified()
 
     def _intbounds_impl(self):
